@@ -38,7 +38,7 @@ def run(pid, tier):
     o.extra['generated_cases'] = s['cases']
     o.extra['hypergeometric_watchdog_timeouts'] = s['hypergeometric_timeouts']
     fz = wd / 'ctor_fuzz.ndjson'
-    s2 = rdv(['ctor-fuzz', '--seed', sd, '--n', 20000 if not thorough else 400000, '--out', fz])
+    s2 = rdv(['ctor-fuzz', '--seed', sd, '--n', 20000 if not thorough else 1500000, '--out', fz])
     ctors_seen = set()
     for name, path, n in (('generated', gen, s['events']), ('fuzz', fz, s2['events'])):
         # batches of <= 150k events
